@@ -349,18 +349,38 @@ let letter_of_sres = function
 
 let sections (s : string) : string list = String.split_on_char '|' s
 
+(* the quirk setting of the model: what the probes at the head of the run found on this tree *)
+let qr_pmap = ref true and qr_eq = ref true and qr_copy = ref true and qr_stream = ref true
+let current_quirks () : quirks =
+  { q_pmap_nilmap = !qr_pmap; q_eq_asint = !qr_eq; q_copy_asint = !qr_copy; q_stream_oneshot = !qr_stream }
+
 let () =
   iter_lines (fun line ->
     match split_tab line with
+    | id :: "probe" :: name :: obs :: _ ->
+      let v = (obs = "1") in
+      (match name with
+       | "pmap_nilmap" -> qr_pmap := v | "eq_asint" -> qr_eq := v | "copy_asint" -> qr_copy := v
+       | "stream_oneshot" -> qr_stream := v | _ -> ());
+      print_string id; print_char '\t'; print_string obs; print_char '\t'; print_endline "ok"
     | id :: "c01" :: proto :: vtext :: script :: mutants :: obs :: _ ->
       let v = dm_of_string vtext in
       let ops = List.map fst (parse_script script) in
       let muts = if mutants = "" then [] else List.map dm_of_string (String.split_on_char ';' mutants) in
-      let p = proto_of proto in
+      (* a bindnode {String:Any} / [Any] builder: its Any-typed positions are basicnode builders, so the
+         script runs as on Prototype.Any; the root is a foreign container and container children handed
+         over by AssignNode are copied into fresh basicnode containers *)
+      let bind_root = (proto = "bindmap" || proto = "bindlist") in
+      let rehome = function NFMap t -> NMap (t, List.rev t) | NFList x -> NList x | n -> n in
+      let wrap n = if not bind_root then n else match n with
+          | NMap (t, _) -> NFMap (List.map (fun (k, c) -> (k, rehome c)) t)
+          | NList x -> NFList (List.map rehome x)
+          | n -> n in
+      let p = if bind_root then PAny else proto_of proto in
       let stream_case = (proto = "bytes") && (match ops with AssignNode _ :: _ -> true | _ -> false) in
       let targets = copy_targets v in
       (* ---- model observation (pinned quirks = the code as it is) *)
-      let q = pinned in
+      let q = current_quirks () in
       let (tr, fin) = run_tol q (init p) ops in
       let rec cut = function [] -> [] | SOk :: r -> SOk :: cut r | x :: _ -> [x] in
       let tr = cut tr in
@@ -368,7 +388,7 @@ let () =
       let trs = String.concat "" (List.map letter_of_sres tr) in
       let model_obs =
         if not all_ok then "tr=" ^ trs ^ "|b=-|t=-|r=-|e=-|c=-|y=-"
-        else match (match fin with Some s -> build s | None -> None) with
+        else match (match fin with Some s -> (match build s with Some n -> Some (wrap n) | None -> None) | None -> None) with
           | None -> "tr=" ^ trs ^ "|b=P|t=-|r=-|e=-|c=-|y=-"
           | Some n ->
             let head = "tr=" ^ trs ^ "|b=ok|t=" ^ mdump n in
